@@ -74,6 +74,7 @@ class FunctionContract:
         it.hooks.update(self.hooks)
         it.root = fn
         it.unroll_limit = self.unroll_limit
+        it.lazy_generators = getattr(self, "lazy_generators", False)
 
     def install_nested(self, it):
         for c in self.uses:
@@ -145,6 +146,8 @@ def run_path(contract: FunctionContract, shape, prefix, repo=REPO):
         it.obs.append(ObResult(f"{fn}/modelled", "undecided", detail=f"line {it.cur_line}: {u}", path=it.prefix[:it.pos]))
     except RaiseSig as r:
         it.obs.append(ObResult(f"{fn}/modelled", "undecided", detail=f"exception {r.exc.cls} escaped the engine at line {it.cur_line}"))
+    finally:
+        it.kill_generators()
     res = []
     for o in it.obs:
         wit = None
